@@ -461,7 +461,7 @@ impl<'a, C: MlsConfig> Hist<'a, C> {
                 }
                 let p = *self.rng.pick(&others);
                 let pname = self.w.members[p].setup.name.clone();
-                let kind = self.rng.below(7);
+                let kind = self.rng.below(8);
                 let mut note = String::new();
                 let (r, m) = match kind {
                     0 => {
@@ -524,6 +524,40 @@ impl<'a, C: MlsConfig> Hist<'a, C> {
                         let Some(bl) = blank else { continue };
                         note = format!("OFFEND remove-nonexisting {bl}");
                         self.w.with_group(p, |g| g.propose_remove(bl, vec![]))
+                    }
+                    7 => {
+                        // two colluding members: x1's new leaf carries x2's current HPKE key, x2's new leaf carries the
+                        // committer's (key collisions inside `batch_edit`, both orders of the cache)
+                        let free: Vec<usize> = active
+                            .iter()
+                            .copied()
+                            .filter(|&i| i != c_pre && !updaters.contains(&i) && !removed_targets.contains(&self.leaf_of(i)))
+                            .collect();
+                        if free.len() < 2 {
+                            continue;
+                        }
+                        let (x1, x2) = (free[0], free[1]);
+                        let key_of = |h: &Self, m: usize| -> Option<Vec<u8>> {
+                            let t = h.w.group(m).export_tree();
+                            t.nodes().get(2 * h.leaf_of(m) as usize).and_then(|n| n.as_ref()).map(|n| n.public_key().as_ref().to_vec())
+                        };
+                        let (Some(k2), Some(kc)) = (key_of(self, x2), key_of(self, c_pre)) else { continue };
+                        for (x, k, tag) in [(x1, k2, "peer"), (x2, kc, "committer")] {
+                            updaters.push(x);
+                            self.w.crypto_log.lock().unwrap().force_kem_pub = Some(k);
+                            let r = self.w.with_group(x, |g| g.propose_update(vec![]));
+                            self.w.crypto_log.lock().unwrap().force_kem_pub = None;
+                            let xname = self.w.members[x].setup.name.clone();
+                            let note = format!("OFFEND update-with-{tag}-key");
+                            self.w.log(format!("propose {xname} {note} -> {}", r.0.s()));
+                            if let Some(m) = r.1.clone() {
+                                let mi = self.w.push_msg("proposal", &xname, epoch, m, &note);
+                                round_props.push(mi);
+                                self.tap_broadcast(mi);
+                                offenders += 1;
+                            }
+                        }
+                        continue;
                     }
                     _ => {
                         // an update from a member who already has one in this round (two changes to one leaf)
